@@ -1,1 +1,307 @@
-//! Helpers of group 'integrity' (see GUIDE.md).
+//! Group 'integrity' (C15 C16 C18 C20 C21 C22 C26): a history runner that reports every op (also
+//! rejected ones) to the checker, and independent invariant checkers that recompute each
+//! invariant from the stored entries only.
+use crate::dump::{self, status_of, DiffOpts, Dump, Status};
+use crate::inv::E;
+use crate::ops::Node;
+use kanidmd_lib::prelude::*;
+use serde_json::Value as J;
+use std::collections::{BTreeMap, BTreeSet};
+use std::fmt::Debug;
+use std::future::Future;
+use std::pin::Pin;
+use vf_core::CaseLog;
+
+pub type OpFuture<'n> = Pin<Box<dyn Future<Output = Result<(), OperationError>> + 'n>>;
+
+/// What the checker sees after every op: the op, its result, and all stored entries afterwards.
+pub struct After<'a, O> {
+    pub step: usize,
+    pub op: &'a O,
+    pub res: &'a Result<(), OperationError>,
+    pub entries: &'a [E],
+    /// entries before the op (= after the previous op)
+    pub before: &'a [E],
+}
+
+impl<O> After<'_, O> {
+    pub fn committed(&self) -> bool {
+        self.res.is_ok()
+    }
+}
+
+#[derive(Default, Debug, Clone, Copy)]
+pub struct Stats {
+    pub committed: usize,
+    pub rejected: usize,
+}
+
+pub fn dump_of(entries: &[E]) -> Dump {
+    entries.iter().map(|e| (e.get_uuid(), dump::dump_entry(e))).collect()
+}
+
+pub async fn read_all(node: &Node) -> Vec<E> {
+    let mut r = node.qs.read().await.expect("read");
+    dump::all_entries(&mut r).expect("all entries")
+}
+
+/// Interpret `ops` on `node`. `apply` runs one op as its own transaction(s) (Err = refused, nothing
+/// committed). After every op `inv` is called. With `check_rejects`, a refused op must leave the
+/// canonical dump (all entries, ids, change state) unchanged.
+pub async fn run_hist<O: Debug>(
+    node: &mut Node,
+    ops: &[O],
+    log: &mut CaseLog,
+    check_rejects: bool,
+    mut apply: impl for<'n> FnMut(&'n mut Node, &'n O) -> OpFuture<'n>,
+    mut inv: impl FnMut(&After<'_, O>, &mut CaseLog),
+) -> Stats {
+    let mut stats = Stats::default();
+    let mut before = read_all(node).await;
+    for (i, op) in ops.iter().enumerate() {
+        let res = apply(node, op).await;
+        let entries = read_all(node).await;
+        match &res {
+            Ok(()) => stats.committed += 1,
+            Err(e) => {
+                stats.rejected += 1;
+                if check_rejects {
+                    let d = dump::diff(
+                        &dump_of(&before),
+                        &dump_of(&entries),
+                        &DiffOpts {
+                            skip_attrs: &[],
+                            ids: true,
+                            changestate: true,
+                        },
+                    );
+                    if !d.is_empty() {
+                        log.fail(
+                            "rejected operation left a trace",
+                            format!("step {i} {op:?} -> Err({e:?}) but the database changed: {:?}", &d[..d.len().min(6)]),
+                        );
+                    }
+                }
+            }
+        }
+        inv(
+            &After {
+                step: i,
+                op,
+                res: &res,
+                entries: &entries,
+                before: &before,
+            },
+            log,
+        );
+        before = entries;
+        if log.failed() {
+            break;
+        }
+    }
+    stats
+}
+
+/// `apply` for plain `ops::Op` histories.
+pub fn apply_base<'n>(node: &'n mut Node, op: &'n crate::ops::Op) -> OpFuture<'n> {
+    Box::pin(crate::ops::apply(node, op))
+}
+
+// ------------------------------------------------------------------------------------------------
+// stored schema (read from the attributetype / classtype ENTRIES, not from the in-memory Schema)
+
+#[derive(Debug, Clone, Default)]
+pub struct StoredAttr {
+    pub syntax: String,
+    pub multivalue: bool,
+    pub unique: bool,
+}
+
+#[derive(Debug, Clone, Default)]
+pub struct StoredClass {
+    pub must: BTreeSet<String>,
+    pub may: BTreeSet<String>,
+    pub supplements: BTreeSet<String>,
+    pub excludes: BTreeSet<String>,
+}
+
+#[derive(Debug, Clone, Default)]
+pub struct StoredSchema {
+    pub attrs: BTreeMap<String, StoredAttr>,
+    pub classes: BTreeMap<String, StoredClass>,
+}
+
+fn strs(e: &E, a: Attribute) -> BTreeSet<String> {
+    dump::proto_values(e, a).into_iter().collect()
+}
+
+pub fn stored_schema(entries: &[E]) -> StoredSchema {
+    let mut s = StoredSchema::default();
+    for e in entries.iter().filter(|e| status_of(e) == Status::Live) {
+        if e.has_class(&EntryClass::AttributeType) {
+            if let Some(name) = dump::proto_values(e, Attribute::AttributeName).into_iter().next() {
+                s.attrs.insert(
+                    name,
+                    StoredAttr {
+                        syntax: dump::proto_values(e, Attribute::Syntax).into_iter().next().unwrap_or_default(),
+                        multivalue: dump::proto_values(e, Attribute::MultiValue).first().map(|v| v == "true").unwrap_or(false),
+                        unique: dump::proto_values(e, Attribute::Unique).first().map(|v| v == "true").unwrap_or(false),
+                    },
+                );
+            }
+        }
+        if e.has_class(&EntryClass::ClassType) {
+            if let Some(name) = dump::proto_values(e, Attribute::ClassName).into_iter().next() {
+                let mut must = strs(e, Attribute::SystemMust);
+                must.extend(strs(e, Attribute::Must));
+                let mut may = strs(e, Attribute::SystemMay);
+                may.extend(strs(e, Attribute::May));
+                let mut supplements = strs(e, Attribute::SystemSupplements);
+                supplements.extend(strs(e, Attribute::Supplements));
+                let mut excludes = strs(e, Attribute::SystemExcludes);
+                excludes.extend(strs(e, Attribute::Excludes));
+                s.classes.insert(
+                    name,
+                    StoredClass {
+                        must,
+                        may,
+                        supplements,
+                        excludes,
+                    },
+                );
+            }
+        }
+    }
+    s
+}
+
+// ------------------------------------------------------------------------------------------------
+// C16: no dangling references
+
+/// Syntax names (as the stored schema entries spell them) whose values carry entry references.
+pub const REF_SYNTAXES: [&str; 3] = ["REFERENCE_UUID", "OAUTH_SCOPE_MAP", "OAUTH_CLAIM_MAP"];
+
+fn collect_uuids(j: &J, out: &mut BTreeSet<Uuid>) {
+    match j {
+        J::String(s) => {
+            if s.len() == 36 {
+                if let Ok(u) = Uuid::parse_str(s) {
+                    out.insert(u);
+                }
+            }
+        }
+        J::Array(a) => a.iter().for_each(|x| collect_uuids(x, out)),
+        J::Object(m) => m.values().for_each(|x| collect_uuids(x, out)),
+        _ => {}
+    }
+}
+
+/// (attribute, referenced uuid) pairs of one entry, from its on-disk encoding, for every attribute
+/// the stored schema types as reference-bearing.
+pub fn references_of(e: &E, ref_attrs: &BTreeSet<String>) -> Vec<(String, Uuid)> {
+    if !ref_attrs.iter().any(|a| e.attribute_pres(Attribute::from(a.as_str()))) {
+        return Vec::new();
+    }
+    let d = dump::dump_entry(e);
+    let mut out = Vec::new();
+    for (a, vals) in &d.attrs {
+        if !ref_attrs.contains(a) {
+            continue;
+        }
+        let mut us = BTreeSet::new();
+        for v in vals {
+            if let Ok(j) = serde_json::from_str::<J>(v) {
+                collect_uuids(&j, &mut us);
+            }
+        }
+        out.extend(us.into_iter().map(|u| (a.clone(), u)));
+    }
+    out
+}
+
+pub fn ref_attrs_of(schema: &StoredSchema) -> BTreeSet<String> {
+    schema
+        .attrs
+        .iter()
+        .filter(|(_, a)| REF_SYNTAXES.contains(&a.syntax.as_str()))
+        .map(|(n, _)| n.clone())
+        .collect()
+}
+
+pub struct RefScan {
+    /// (holder, attribute, target, target status or None when absent)
+    pub dangling: Vec<(Uuid, String, Uuid, Option<Status>)>,
+    /// number of (holder, attr, target) triples held by live entries
+    pub live_refs: usize,
+    pub ref_attrs: BTreeSet<String>,
+}
+
+pub fn ref_scan(entries: &[E]) -> RefScan {
+    let schema = stored_schema(entries);
+    ref_scan_with(entries, ref_attrs_of(&schema))
+}
+
+pub fn ref_scan_with(entries: &[E], ref_attrs: BTreeSet<String>) -> RefScan {
+    let status: BTreeMap<Uuid, Status> = entries.iter().map(|e| (e.get_uuid(), status_of(e))).collect();
+    let mut dangling = Vec::new();
+    let mut live_refs = 0;
+    for e in entries.iter().filter(|e| status_of(e) == Status::Live) {
+        for (a, t) in references_of(e, &ref_attrs) {
+            live_refs += 1;
+            match status.get(&t) {
+                Some(Status::Live) => {}
+                other => dangling.push((e.get_uuid(), a, t, other.copied())),
+            }
+        }
+    }
+    RefScan {
+        dangling,
+        live_refs,
+        ref_attrs,
+    }
+}
+
+/// Live entries of `entries` holding a reference (any reference attribute) to `target`.
+pub fn holders_of(entries: &[E], target: Uuid, ref_attrs: &BTreeSet<String>) -> BTreeSet<Uuid> {
+    entries
+        .iter()
+        .filter(|e| status_of(e) == Status::Live && e.get_uuid() != target)
+        .filter(|e| references_of(e, ref_attrs).iter().any(|(_, t)| *t == target))
+        .map(|e| e.get_uuid())
+        .collect()
+}
+
+// ------------------------------------------------------------------------------------------------
+// C22: spn == name@domain
+
+/// The domain name as stored on the domain_info entry.
+pub fn stored_domain_name(entries: &[E]) -> Option<String> {
+    entries
+        .iter()
+        .find(|e| e.get_uuid() == UUID_DOMAIN_INFO)
+        .and_then(|e| dump::proto_values(e, Attribute::DomainName).into_iter().next())
+}
+
+/// Discrepancies of the spn invariant over live accounts and groups.
+pub fn spn_violations(entries: &[E]) -> Vec<String> {
+    let mut out = Vec::new();
+    let Some(domain) = stored_domain_name(entries) else {
+        return vec!["domain_info entry has no domain_name".into()];
+    };
+    for e in entries.iter().filter(|e| status_of(e) == Status::Live) {
+        if !(e.has_class(&EntryClass::Account) || e.has_class(&EntryClass::Group)) {
+            continue;
+        }
+        let names = dump::proto_values(e, Attribute::Name);
+        let spns = dump::proto_values(e, Attribute::Spn);
+        if names.len() != 1 {
+            out.push(format!("{} has {} names", e.get_uuid(), names.len()));
+            continue;
+        }
+        let want = format!("{}@{}", names[0], domain);
+        if spns.len() != 1 || spns[0] != want {
+            out.push(format!("{}: spn {:?}, expected [{want:?}]", e.get_uuid(), spns));
+        }
+    }
+    out
+}
